@@ -67,11 +67,19 @@ MUT = [
  ("C18", "qkeras/qtools/generate_layer_data_type_map.py", "          graph, node_id, quantizer_factory, layer_quantizer, for_reference)\n\n      layer_data_type_map[layer] = LayerDataType(\n          input_quantizer_list,\n          None,\n          None,\n          None,\n          w_shapes,", "          graph, node_id, quantizer_factory, input_quantizer_list[0], for_reference)\n\n      layer_data_type_map[layer] = LayerDataType(\n          input_quantizer_list,\n          None,\n          None,\n          None,\n          w_shapes,", "QActivation_"),
  ("C18", "qkeras/qtools/generate_layer_data_type_map.py", "          input_qe_list, layer.__class__.__name__)", "          input_qe_list[:1] * 2, layer.__class__.__name__)", "Add_of_two"),
  ("C18", "qkeras/qtools/quantized_operators/quantizer_impl.py", "    self.is_signed = quantizer.keep_negative\n", "    self.is_signed = 1\n", "QActivation_"),
+ ("C19", "qkeras/estimate.py", "      number_of_operations = int(size_i * size_o)", "      number_of_operations = int(size_i + size_o)", "extract_model_operations/QDense"),
+ ("C19", "qkeras/estimate.py", '      ["barrel", "adder", "mux", "xor", "mux", "fmult"],', '      ["barrel", "adder", "mux", "mux", "mux", "fmult"],', "get_operation_type"),
+ ("C19", "qkeras/estimate.py", '      ("bernoulli", 4, 1, 0),', '      ("bernoulli", 3, 1, 0),', "get_operation_type"),
+ ("C19", "qkeras/qtools/run_qtools.py", "        self._model, self._layer_map, weights_on_memory,\n        activations_on_memory, min_sram_size,", "        self._model, self._layer_map, activations_on_memory,\n        weights_on_memory, min_sram_size,", "QTools.pe"),
+ ("C20", "qkeras/autoqkeras/autoqkeras_internal.py", "      return K.cast(metric * (1.0 + delta), K.floatx())", "      return K.cast(metric * (1.0 - delta), K.floatx())", "adjusted_score"),
+ ("C10", "qkeras/qlayers.py", '        "bias_quantizer":\n            str(self.bias_quantizer_internal),\n        "activation":\n            str(self.activation),\n        "units" : str(self.units)', '        "bias_quantizer":\n            str(self.kernel_quantizer_internal),\n        "activation":\n            str(self.activation),\n        "units" : str(self.units)', "QDense.get_quantization"),
+ ("C14", "qkeras/utils.py", "          has_scale = True\n          signs.append([])\n", "          has_scale = True\n", "biaspo2b"),
+ ("C10", "qkeras/safe_eval.py", 'Group(Regex(r"[^=,)\\s]+")', 'Group(Regex(r"[^=,)]+")', "GetParams/grammar"),
 ]
 def main(sel=None):
   res = []
   for i, (prop, f, old, new, only) in enumerate(MUT):
-    if sel and prop not in sel: continue
+    if sel and prop not in sel and ("#%d" % i) not in sel: continue
     d = "/tmp/mutant_%d" % i
     shutil.rmtree(d, ignore_errors=True)
     os.makedirs(d)
